@@ -56,7 +56,7 @@ def run_batches(res, work, batches, clause_filter=None, nshards=None, want_props
     known = vlib.load_known()
     want = want_props or {res.prop}
     # replay files of earlier runs of this property are stale
-    rd = os.path.join(vlib.VERIF, "replay")
+    rd = os.path.join(vlib.OUT, "replay")
     if os.path.isdir(rd) and not os.environ.get("VERIF_NO_REPLAY_WRITE") and not getattr(res, "_cleaned", False):
         for f in os.listdir(rd):
             if f.startswith(res.prop + "-"):
